@@ -38,6 +38,9 @@ class IWorld:
         def mk(m):
             if m["type"] == "symbolic":
                 return Mapping(m["name"], dim=d)
+            if m["type"] == "user":
+                ex = {"xyz"[i]: m["exprs"][i] for i in range(d)}
+                return type("UserMapping", (Mapping,), {"_expressions": ex, "_ldim": d, "_pdim": d})(m["name"], dim=d)
             cls = getattr(top, m["cls"])
             kw = {k: Rational(v[0], v[1]) for k, v in m.get("params", {}).items()}
             if m["cls"] in ("IdentityMapping", "AffineMapping"):
@@ -46,7 +49,17 @@ class IWorld:
         self.Mm = mk(f["minus"])
         self.Mp = self.Mm if self.same else mk(f["plus"])
         L = [Line, Square, Cube][d - 1]
-        self.patches = [self.Mm(L("A")), self.Mp(L("B"))]
+
+        def patch(name, b, e):
+            # b = [p, q]: the (rational) logical coordinate of the common face; the patch is the unit interval next to it
+            if b is None:
+                return L(name)
+            v = Rational(b[0], b[1])
+            iv = (float(v - 1), float(v)) if e == 1 else (float(v), float(v + 1))
+            if d == 1:
+                return L(name, bounds=iv)
+            return L(name, **{"bounds%d" % (f["axis"] + 1): iv})
+        self.patches = [self.Mm(patch("A", f.get("bm"), f["em"])), self.Mp(patch("B", f.get("bp"), f["ep"]))]
         conn = ((0, f["axis"], f["em"]), (1, f["axis"], f["ep"]))
         if f.get("ornt", 1) == -1:
             conn = conn + (-1,)
@@ -162,7 +175,8 @@ class TwoSided:
         d = self.d
         f = w.case["iface"]
         self.ax, self.em, self.ep = f["axis"], f["em"], f["ep"]
-        self.bm, self.bp = (1 if self.em == 1 else 0), (1 if self.ep == 1 else 0)
+        self.bm = Rational(*f["bm"]) if f.get("bm") else sp.Integer(1 if self.em == 1 else 0)
+        self.bp = Rational(*f["bp"]) if f.get("bp") else sp.Integer(1 if self.ep == 1 else 0)
         base = ser.Concrete(rng, dim=3)
         self.base = base
         am = f["minus"]["type"] != "symbolic"
@@ -314,8 +328,8 @@ class TwoSided:
         used, worst = 0, 0.0
         for _ in range(npts):
             t = {j: Rational(self.rng.randint(1, 9), self.rng.randint(10, 13)) for j in cols}
-            xm = {LS[j]: t[j] for j in cols}; xm[LS[self.ax]] = sp.Integer(self.bm)
-            xp = {LP[j]: (1 - t[j] if self.flip else t[j]) for j in cols}; xp[LP[self.ax]] = sp.Integer(self.bp)
+            xm = {LS[j]: t[j] for j in cols}; xm[LS[self.ax]] = self.bm
+            xp = {LP[j]: (1 - t[j] if self.flip else t[j]) for j in cols}; xp[LP[self.ax]] = self.bp
             pm = [f.xreplace(xm) for f in self.F["-"]]
             pp = [f.xreplace(dict(zip(LS, LP))).xreplace(xp) for f in self.F["+"]]
             gap = max(abs(IF.num(a - b)) for a, b in zip(pm, pp))
@@ -335,7 +349,7 @@ class TwoSided:
                 with mpmath.workdps(50):
                     dlt = abs(vg - vw) / max(1, abs(vg), abs(vw))
                 worst = max(worst, float(dlt))
-                if dlt > mpmath.mpf(10) ** (-25):
+                if dlt > mpmath.mpf(10) ** (-9 if IF.APPROX[0] else -25):
                     return False, {"why": "value", "entry": idx,
                                    "point_minus": {str(k): str(v) for k, v in xm.items()},
                                    "point_plus": {str(k): str(v) for k, v in xp.items()},
@@ -383,6 +397,7 @@ def run_if_case(case, C03):
                       "where": ["%s:%d" % (f.filename.split("/")[-1], f.lineno) for f in tb[-3:]]}
         return out
     try:
+        IF.APPROX[0] = False
         out["out"] = ser_out(res, w, C03)
     except ser.Unsupported as ex:
         out["out"] = {"err": "unsupported-node", "msg": str(ex)[:200], "text": str(res)[:400]}
